@@ -10,6 +10,16 @@ arithmetic, no debug assertions; division by zero still panics).
 `Legacy.tumble` is `Window::tumble` as it was at the pinned commit (`rel = ts - offset_ms`);
 `tumble` follows the current code (offset reduced modulo the size first, `fix:` commit).
 
+**Correspondence of the four variants** (all checked line by line on every run, `harness/src/c13.rs`):
+`tumble` ↔ the linked ironbeam crate (overflow-checking harness build), request `TUMBLE`;
+`tumbleWrapping` ↔ the text of the current `src/window.rs` compiled as crate `harness/relwin`
+(`overflow-checks = false`, `debug-assertions = false`, i.e. release arithmetic), request `TUMBLE-WRAP`;
+`Legacy.tumble` / `Legacy.tumbleWrapping` ↔ the text of the pre-fix `src/window.rs`, taken from the repo's git
+history (parent of the commit that introduced `let off = offset_ms % size_ms;`), compiled as `harness/chkwin`
+(checking) / `harness/relwin` (release), requests `TUMBLE-LEGACY` / `TUMBLE-LEGACY-WRAP`.  When the git history
+is not available the harness emits no `TUMBLE-LEGACY*` line and counts `legacy-source:unavailable`; the
+`Legacy.*` theorems are then **unvalidated** for that run (the evidence shows the counter).
+
 The grouping helpers are `map` followed by `group_by_key` (`src/helpers/keyed.rs`): a per-partition
 `HashMap<K, Vec<V>>` built with `entry(k).or_default().push(v)` and a merge that walks the
 partitions in order doing `entry(k).or_default().extend(vs)`.  `std::HashMap` is modelled as an
@@ -41,6 +51,9 @@ def Window.hashWords (a : Window) : List Nat := [a.start, a.stop]
 /-- `impl Ord for Window`: `self.start.cmp(&o.start).then(self.end.cmp(&o.end))` -/
 def Window.cmpImpl (a b : Window) : Ordering :=
   (compare a.start b.start).then (compare a.stop b.stop)
+
+/-- `impl PartialOrd for Window`: `Some(self.cmp(o))` -/
+def Window.partialCmpImpl (a b : Window) : Option Ordering := some (a.cmpImpl b)
 
 /-! ## checked `u64` arithmetic (`none` = panic) -/
 
@@ -233,6 +246,17 @@ def keyByWindow (size off : Nat) (xs : List (Timestamped β)) : Option (List (Wi
 def keyByKeyAndWindow (size off : Nat) (xs : List (κ × Timestamped β)) :
     Option (List ((κ × Window) × β)) :=
   mapAll (keyWindowKey size off) xs
+
+/-- `key_by_window(..).collect_*()` over the given partitions: the stateless `map` runs on every
+    partition, the terminal vector is the partitions concatenated in order
+    (`exec_seq` is the case `[whole]`, `exec_par` the case `sourceParts whole n`) -/
+def keyByWindowPar (size off : Nat) (parts : List (List (Timestamped β))) : Option (List (Window × β)) :=
+  (mapAll (keyByWindow size off) parts).map List.flatten
+
+/-- keyed `key_by_window(..).collect_*()` over the given partitions -/
+def keyByKeyAndWindowPar (size off : Nat) (parts : List (List (κ × Timestamped β))) :
+    Option (List ((κ × Window) × β)) :=
+  (mapAll (keyByKeyAndWindow size off) parts).map List.flatten
 
 /-- `group_by_window` = `key_by_window(..).group_by_key()` over the given partitions -/
 def groupByWindow (size off : Nat) (parts : List (List (Timestamped β))) :
